@@ -19,7 +19,7 @@ import re
 from typing import Any, Dict, List, Optional, Set, Tuple
 
 from engine.cfg import build_cfg
-from engine.fold import Folder
+from engine.fold import Folder, FoldError
 from engine.model import AnalysisError, Program, dotted, walk_no_nested
 from engine.wire import Config, Extractor, atoms, expand, value_count
 from rules.c09 import attrs_fields
@@ -170,14 +170,26 @@ def run(ctx: Any, prog: Program) -> None:
         if isinstance(wnode, ast.Name) and wnode.id in w_alias:
             wfields = [w_alias[wnode.id]]
         if i == 5:
-            ok = wsrc.replace(' ', '').lower() in ('0xffff', '65535')
-            ctx.check('C13.Z2', ok, vpk, w_ent.node, f'entry slot 5 is the terminator: writer packs `{wsrc}`, reader checks 0xffff', func='VPK.write_dirfile', text='entry terminator value')
+            try:
+                w_term = fold.fold(wnode, {})
+            except FoldError:
+                w_term = None
+            ctx.shape('C13.Z2', isinstance(w_term, int), vpk, w_ent.node, f'entry slot 5 `{wsrc}` folds to a constant', func='VPK.write_dirfile', text='entry terminator value')
+            if isinstance(w_term, int):
+                ctx.check('C13.Z2', w_term == 0xffff, vpk, w_ent.node, f'entry slot 5 is the terminator: writer packs `{wsrc}` = {w_term:#x}, the format (and the reader) want 0xffff', func='VPK.write_dirfile', text='entry terminator value')
             continue
         if rfield is None or not wfields:
             ctx.note(f'entry slot {i}: linkage undetermined (reader {rn} -> {rfield}, writer {wsrc})')
             continue
         ctx.check('C13.Z2', rfield in wfields, vpk, w_ent.node, f'entry slot {i}: the reader stores it into FileInfo.{rfield} but the writer packs `{wsrc}`', func='VPK.write_dirfile', text=f'entry slot {i} -> {rfield}')
-    term = [n for n in walk_no_nested(ld) if isinstance(n, ast.If) and ast.unparse(n.test).replace(' ', '').lower() in ('end!=0xffff', 'end!=65535') and any(isinstance(x, ast.Raise) for x in n.body)]
+    def _is_term_test(t: ast.AST) -> bool:
+        if not (isinstance(t, ast.Compare) and len(t.ops) == 1 and isinstance(t.ops[0], ast.NotEq) and isinstance(t.left, ast.Name) and t.left.id == r_ent.names[5]):
+            return False
+        try:
+            return fold.fold(t.comparators[0], {}) == 0xffff
+        except FoldError:
+            return False
+    term = [n for n in walk_no_nested(ld) if isinstance(n, ast.If) and _is_term_test(n.test) and any(isinstance(x, ast.Raise) for x in n.body)]
     ctx.shape('C13.Z2', len(term) == 1, vpk, term[0] if term else ld, 'the reader must reject an entry whose terminator is not 0xffff', func='VPK.load_dirfile', text='terminator checked')
     dai = fold.global_('DIR_ARCH_INDEX')
     r_map = any(isinstance(n, ast.If) and ast.unparse(n.test) == 'arch_ind == DIR_ARCH_INDEX' and ast.unparse(n.body[0]) == 'arch_ind = None' for n in walk_no_nested(ld))
@@ -230,12 +242,17 @@ def run(ctx: Any, prog: Program) -> None:
                     and c.func.attr in fm and c.func.attr not in ('read', 'verify', 'write') and fm[c.func.attr] is not fn]
 
         def rec(stmts: List[ast.stmt], ctxk: str, depth: int = 0) -> None:
-            for st in stmts:
+            for i_st, st in enumerate(stmts):
                 if depth < 2 and not isinstance(st, (ast.If, ast.With, ast.For, ast.While, ast.Try)):
                     for h in helpers_in(st):
                         rec(h.body, ctxk, depth + 1)
                 if isinstance(st, ast.If):
                     t = ast.unparse(st.test).replace('self.', '')
+                    if t in ('arch_index is None', 'arch_index is not None') and not st.orelse and st.body and isinstance(st.body[-1], (ast.Return, ast.Raise)) and ctxk == 'unguarded':
+                        # guard clause: the rest of this statement list runs under the negated test
+                        rec(st.body, 'none' if t == 'arch_index is None' else 'num', depth)
+                        rec(stmts[i_st + 1:], 'num' if t == 'arch_index is None' else 'none', depth)
+                        return
                     if t == 'arch_index is None':
                         rec(st.body, 'none', depth)
                         rec(st.orelse, 'num', depth)
